@@ -230,6 +230,8 @@ def det_run(task):
             extra['VERIF_PAD'] = 'x' * pert['env_pad']
         if pert.get('epoch'):
             extra['VERIF_FAKE_EPOCH'] = str(pert['epoch'])
+        if pert.get('pbimpl'):
+            extra['PROTOCOL_BUFFERS_PYTHON_IMPLEMENTATION'] = pert['pbimpl']
         env = gen.child_env(extra, hashseed=pert.get('seed', 0))
         cwd = {'scratch': d, 'root': '/', 'deep': os.path.join(d, 'a', 'b', 'c', 'd')}[pert.get('cwd', 'scratch')]
         os.makedirs(cwd, exist_ok=True)
@@ -314,7 +316,9 @@ def run(ctx, only=None):
     for k in ins:
         for pert in (dict(cwd='root'), dict(cwd='deep'), dict(malloc='malloc'), dict(env_pad=20000), dict(epoch=946684800),
                      dict(epoch=4102444800), dict(malloc='malloc', seed=base_seed + 1, cwd='deep', env_pad=777),
-                     dict(malloc='malloc', env_pad=4096 + 13), dict(malloc='pymalloc_debug'), dict(env_pad=131)):
+                     dict(malloc='malloc', env_pad=4096 + 13), dict(malloc='pymalloc_debug'), dict(env_pad=131),
+                     # the other protobuf runtime: its map fields iterate in another order
+                     dict(pbimpl='python')):
             tasks.append((k, bound[k], dict(dict(seed=base_seed), **pert), root))
     for r in engine.pmap(det_run, tasks):
         results[r['name']].append(r)
